@@ -4,7 +4,9 @@
    Proofs/GammaR.v (over the reals: the stdlib real axioms). *)
 From Coq Require Import Reals QArith Qreals.
 From MM Require Import Base.Num Model.Mathx Proofs.Mathx.
+From Coquelicot Require Import Coquelicot.
 From MM Require Import RealSpec.Beta RealSpec.Gamma Proofs.BetaR Proofs.GammaR Proofs.MathxR.
+From MM Require Import RealSpec.BetaGen Proofs.BetaGen RealSpec.GammaGen Proofs.GammaGen.
 Local Open Scope Z_scope.
 
 (* ---------------- Sign ---------------- *)
@@ -133,6 +135,55 @@ Theorem C08_ibeta_real_laws : forall a b x y : R, (1 <= a)%R -> (1 <= b)%R ->
 Proof. exact ibeta_real_laws. Qed.
 Print Assumptions C08_ibeta_real_laws.
 
+(* ... and for EVERY real a, b > 0 (the property's range starts at 0.05): RealSpec/BetaGen.v defines
+   I_x(a,b) from proper integrals only (the mass of [0,1/2] by one integration by parts) ... *)
+Theorem C08_ibeta_gen_laws : forall a b x y : R, (0 < a)%R -> (0 < b)%R ->
+  ((0 <= x <= 1 -> 0 <= Ibeta_gen x a b <= 1) /\
+   (0 <= x <= y -> y <= 1 -> Ibeta_gen x a b <= Ibeta_gen y a b) /\
+   (0 <= x <= 1 -> Ibeta_gen x a b + Ibeta_gen (1 - x) b a = 1) /\
+   Ibeta_gen 0 a b = 0 /\ Ibeta_gen 1 a b = 1)%R.
+Proof. exact ibeta_gen_laws. Qed.
+Print Assumptions C08_ibeta_gen_laws.
+
+(* ... strictly increasing in x, with derivative the normalised kernel ... *)
+Theorem C08_ibeta_gen_increasing : forall a b x y : R, (0 < a)%R -> (0 < b)%R -> (0 <= x)%R -> (x < y)%R -> (y <= 1)%R ->
+  (Ibeta_gen x a b < Ibeta_gen y a b)%R.
+Proof. exact Ibeta_gen_increasing. Qed.
+Print Assumptions C08_ibeta_gen_increasing.
+
+Theorem C08_ibeta_gen_derive : forall a b x : R, (0 < x < 1)%R ->
+  is_derive (fun y => Ibeta_gen y a b) x (bkernel a b x / Btotal a b)%R.
+Proof. exact Ibeta_gen_derive. Qed.
+Print Assumptions C08_ibeta_gen_derive.
+
+(* ... whose ingredients ARE the improper integrals int_e^x and int_e^(1-e) of the kernel as e -> 0+ ... *)
+Theorem C08_ibeta_gen_is_improper_integral : forall a b x : R, (0 < a)%R -> (0 < b)%R -> (0 < x < 1)%R ->
+  filterlim (fun e => RInt (bkernel a b) e x) (at_right 0) (locally (Bgen a b x)) /\
+  filterlim (fun e => RInt (bkernel a b) e (1 - e)) (at_right 0) (locally (Btotal a b)).
+Proof. intros a b x Ha Hb Hx. split; [exact (Bgen_is_limit a b x Ha Hx) | exact (Btotal_is_limit a b Ha Hb)]. Qed.
+Print Assumptions C08_ibeta_gen_is_improper_integral.
+
+(* ... is continuous on the whole line (in particular at the ends 0 and 1, also for a, b < 1) and has the closed
+   forms I_x(a,1) = x^a, I_x(1,b) = 1 - (1-x)^b, I_(1/2)(a,a) = 1/2 for every real a, b > 0 ... *)
+Theorem C08_ibeta_gen_continuous : forall a b x : R, (0 < a)%R -> (0 < b)%R -> continuous (fun y => Ibeta_gen y a b) x.
+Proof. exact Ibeta_gen_continuous. Qed.
+Print Assumptions C08_ibeta_gen_continuous.
+
+Theorem C08_ibeta_gen_closed_forms : forall a x : R, (0 < a)%R -> (0 <= x <= 1)%R ->
+  Ibeta_gen x a 1 = RealSpec.BetaGen.rpow0 a x /\ Ibeta_gen x 1 a = (1 - RealSpec.BetaGen.rpow0 a (1 - x))%R /\
+  Ibeta_gen (1 / 2) a a = (1 / 2)%R.
+Proof.
+  intros a x Ha Hx. split; [exact (Ibeta_gen_b1 a x Ha Hx)|]. split; [exact (Ibeta_gen_a1 a x Ha Hx) | exact (Ibeta_gen_half_symm a Ha)].
+Qed.
+Print Assumptions C08_ibeta_gen_closed_forms.
+
+(* ... and which is the ratio of integrals Ibeta_R (the function of the closed forms and of the certificate
+   goals) whenever that one is a proper integral *)
+Theorem C08_ibeta_gen_agrees : forall a b x : R, (1 <= a)%R -> (1 <= b)%R -> (0 <= x <= 1)%R ->
+  Ibeta_gen x a b = Ibeta_R x a b.
+Proof. exact ibeta_gen_agrees. Qed.
+Print Assumptions C08_ibeta_gen_agrees.
+
 (* "branch choice x<(a+1)/(a+b+2) and symmetry transform" (beta.go:27-52): whatever the
    continued fraction cf and the prefactor bt are, if bt*cf/a represents I and bt is invariant
    under (x,a,b) -> (1-x,b,a), BOTH branches return I_x(a,b). *)
@@ -203,6 +254,53 @@ Theorem C08_gamma_int_laws : forall (n : nat) (x y : R),
    1 - Pgamma_nat n x = Qgamma_int n x)%R.
 Proof. exact gamma_int_laws. Qed.
 Print Assumptions C08_gamma_int_laws.
+
+(* for EVERY real shape a > 0: RealSpec/GammaGen.v defines the lower incomplete gamma integral lgam a x from a
+   proper integral (one integration by parts removes the end-point singularity of t^(a-1) at 0), Gamma(a) as its
+   limit at infinity, P = lgam/Gamma and Q = 1 - P.  "lie in [0,1], are monotone in x, sum to 1, P(a,0) = 0": *)
+Theorem C08_pgam_laws : forall a x y : R, (0 < a)%R ->
+  ((0 <= x -> 0 <= Pgam a x <= 1) /\ (0 <= x <= y -> Pgam a x <= Pgam a y) /\
+   Pgam a x + Qgam a x = 1 /\ Pgam a 0 = 0)%R.
+Proof. exact pgam_laws. Qed.
+Print Assumptions C08_pgam_laws.
+
+Theorem C08_pgam_qgam_strict : forall a : R, (0 < a)%R -> forall x y : R, (0 <= x < y)%R ->
+  (Pgam a x < Pgam a y /\ Qgam a y < Qgam a x /\ 0 <= Pgam a x < 1 /\ 0 < Qgam a x <= 1)%R.
+Proof.
+  intros a Ha x y Hxy. split; [exact (Pgam_increasing a Ha x y Hxy)|]. split; [exact (Qgam_decreasing a Ha x y Hxy)|].
+  split; [exact (Pgam_range a Ha x (proj1 Hxy)) | exact (Qgam_range a Ha x (proj1 Hxy))].
+Qed.
+Print Assumptions C08_pgam_qgam_strict.
+
+(* the definitions ARE the regularized lower and upper incomplete gamma functions: lgam is the improper integral
+   int_0^x t^(a-1) e^-t dt, Gamma(a) its limit, P the normalised integral over [e,x] -> [0,x], Q the normalised
+   integral over [x, n] as n -> infinity; P -> 1 and Q -> 0 at infinity *)
+Theorem C08_pgam_is_incomplete_gamma : forall a : R, (0 < a)%R ->
+  (forall x, (0 < x)%R -> filterlim (fun e => RInt (gkernel a) e x) (at_right 0) (locally (lgam a x))) /\
+  is_lim (lgam a) p_infty (Gam a) /\ (0 < Gam a)%R /\
+  (forall e x, (0 < e <= x)%R -> (RInt (gkernel a) e x / Gam a = Pgam a x - Pgam a e)%R) /\
+  (forall x, (0 < x)%R -> is_lim_seq (fun n => RInt (gkernel a) x (INR n) / Gam a)%R (Qgam a x)) /\
+  is_lim (Pgam a) p_infty 1%R /\ is_lim (Qgam a) p_infty 0%R.
+Proof.
+  intros a Ha. split; [intros x Hx; exact (lgam_is_limit_of_proper a x Ha Hx)|].
+  split; [exact (lgam_lim_infty a Ha)|]. split; [exact (Gam_pos a Ha)|].
+  split; [exact (Pgam_is_lower a Ha)|]. split; [exact (Qgam_is_upper a Ha)|].
+  split; [exact (Pgam_lim_infty a Ha) | exact (Qgam_lim_infty a Ha)].
+Qed.
+Print Assumptions C08_pgam_is_incomplete_gamma.
+
+(* Gamma(a+1) = a Gamma(a), Gamma(n+1) = n!, and at integer shape P, Q are the functions of the closed forms and
+   of the certificate goals *)
+Theorem C08_gam_functional_equation : forall a : R, (0 < a)%R -> Gam (a + 1)%R = (a * Gam a)%R.
+Proof. exact Gam_succ. Qed.
+Print Assumptions C08_gam_functional_equation.
+
+Theorem C08_pgam_agrees_at_integers : forall (n : nat) (x : R), (0 <= x)%R ->
+  Gam (INR n + 1)%R = INR (fact n) /\ Pgam (INR n + 1)%R x = Pgamma_nat n x /\ Qgam (INR n + 1)%R x = Qgamma_int n x.
+Proof.
+  intros n x Hx. split; [exact (Gam_nat n)|]. split; [exact (Pgam_nat_agree n x Hx) | exact (Qgam_nat_agree n x Hx)].
+Qed.
+Print Assumptions C08_pgam_agrees_at_integers.
 
 (* ---------------- Beta ---------------- *)
 (* "Beta(a,b)=Gamma(a)Gamma(b)/Gamma(a+b)": the model's table of Gamma(m/2) obeys
